@@ -24,69 +24,84 @@ func verifC08RawParams() *json.RawMessage {
 	return &raw
 }
 
-// verifC08DecodeOutcome chooses what the decoder makes of the raw params: an error, or a list of
-// `n` elements built by elem(i).
-func verifC08DecodeOutcome(maxLen int, elem func(i int) any) {
+// verifC08DecodeOutcome chooses what the decoder makes of the raw params:
+//
+//	A. an error (params is not a list), a null list, an empty list;
+//	B. a list of 1..2 elements whose first element has any dynamic type / any pool value
+//	   (second element: an empty object);
+//	C. a well-formed first element followed by a second element that is an option object
+//	   (see verifC08Object) or a value of any other dynamic type, optionally followed by a third
+//	   element of any dynamic type.
+func verifC08DecodeOutcome(first verifC08Key, keys []verifC08Key) {
 	verifC08UnmarshalFails = false
 	verifC08Params = nil
 	if verifC08ParamsMissing {
 		return // nothing to decode
 	}
-	n := verifChoice("params.len", maxLen+2) // maxLen+1 => decoder error
-	if n == maxLen+1 {
+	switch verifChoice("params.shape", 5) {
+	case 0:
 		verifC08UnmarshalFails = true
-		return
-	}
-	if n == 0 {
-		if verifChoice("params.null", 2) == 1 {
-			verifC08Params = []any{} // "params":[]   (nil list: "params":null)
+	case 1:
+		// "params":null -> nil list
+	case 2:
+		verifC08Params = []any{}
+	case 3:
+		v := verifC08Value("first", first.strs, first.nums)
+		if verifChoice("params.len2", 2) == 1 {
+			verifC08Params = []any{v, map[string]any{}}
+		} else {
+			verifC08Params = []any{v}
 		}
-		return
-	}
-	verifC08Params = make([]any, n)
-	for i := 0; i < n; i++ {
-		verifC08Params[i] = elem(i)
+	default:
+		var v any
+		if first.want == verifC08Number {
+			v = first.nums[0]
+		} else {
+			v = first.strs[0]
+		}
+		var second any
+		if keys != nil && verifChoice("second.isobject", 2) == 1 {
+			second = verifC08Object("opts", keys)
+			verifC08Params = []any{v, second}
+			return
+		}
+		second = verifC08IllTyped("second", verifC08Obj)
+		if verifChoice("params.len3", 2) == 1 {
+			verifC08Params = []any{v, second, verifC08Value("third", []string{"x"}, []float64{1})}
+		} else {
+			verifC08Params = []any{v, second}
+		}
 	}
 }
 
+var (
+	verifC08SlotArg = verifC08Key{"slot", verifC08Number, []string{"123", ""}, verifC08Numbers}
+	verifC08SigArg  = verifC08Key{"signature", verifC08String, verifC08B58Strings, []float64{1}}
+	verifC08AddrArg = verifC08Key{"address", verifC08String, append([]string{verifC08Key32}, verifC08B58Strings...), []float64{1}}
+)
+
 var verifC08BlockOptionKeys = []verifC08Key{
-	{"commitment", []string{"finalized", ""}, []float64{1}},
-	{"encoding", verifC08Encodings, []float64{1}},
-	{"maxSupportedTransactionVersion", []string{"0"}, []float64{0, -1, 1e300}},
-	{"transactionDetails", []string{"full", "none"}, []float64{1}},
-	{"rewards", []string{"true"}, []float64{1}},
+	{"commitment", verifC08String, []string{"finalized"}, nil},
+	{"encoding", verifC08String, verifC08Encodings, nil},
+	{"maxSupportedTransactionVersion", verifC08Number, nil, []float64{0, 1e300}},
+	{"transactionDetails", verifC08String, []string{"full"}, nil},
+	{"rewards", verifC08Bool, nil, nil},
 }
 
 var verifC08TxOptionKeys = []verifC08Key{
-	{"encoding", verifC08Encodings, []float64{1}},
-	{"maxSupportedTransactionVersion", []string{"0"}, []float64{0, -1, 1e300}},
-	{"commitment", []string{"finalized", ""}, []float64{1}},
+	{"encoding", verifC08String, verifC08Encodings, nil},
+	{"maxSupportedTransactionVersion", verifC08Number, nil, []float64{0, 1e300}},
+	{"commitment", verifC08String, []string{"finalized"}, nil},
 }
 
 var verifC08GsfaOptionKeys = []verifC08Key{
-	{"limit", []string{"10"}, []float64{0, 1, 1000, 1001, -5, 2.5, 1e300}},
-	{"before", verifC08B58Strings, []float64{1}},
-	{"until", verifC08B58Strings, []float64{1}},
-}
-
-// the second/third list element: an option object or any other JSON value
-func verifC08Options(name string, keys []verifC08Key) any {
-	if verifChoice(name+".isobject", 2) == 1 {
-		return verifC08Object(name, keys)
-	}
-	return verifC08Value(name, []string{"x"}, []float64{1})
+	{"limit", verifC08Number, nil, []float64{10, 0, 1000, 1001, -5, 2.5, 1e300}},
+	{"before", verifC08String, verifC08B58Strings, nil},
+	{"until", verifC08String, verifC08B58Strings, nil},
 }
 
 func verifC08ParseGetBlock(raw *json.RawMessage) {
-	verifC08DecodeOutcome(3, func(i int) any {
-		switch i {
-		case 0:
-			return verifC08Value("slot", []string{"123", ""}, verifC08Numbers)
-		case 1:
-			return verifC08Options("opts", verifC08BlockOptionKeys)
-		}
-		return verifC08Value("extra", []string{"x"}, []float64{1})
-	})
+	verifC08DecodeOutcome(verifC08SlotArg, verifC08BlockOptionKeys)
 	out, err := parseGetBlockRequest(raw)
 	verifAssert(out != nil || err != nil, "C08.parse: parseGetBlockRequest returned neither a request nor an error (handler dereferences the request)")
 	if err != nil {
@@ -96,7 +111,6 @@ func verifC08ParseGetBlock(raw *json.RawMessage) {
 	// handleGetBlock dereferences these without a nil check
 	verifAssert(out.Options.Encoding != nil, "C08.parse: getBlock request without Encoding (handler dereferences it)")
 	verifAssert(out.Options.Rewards != nil, "C08.parse: getBlock request without Rewards (handler dereferences it)")
-	verifAssert(out.Options.Commitment != nil && out.Options.TransactionDetails != nil, "C08.parse: getBlock request without Commitment/TransactionDetails defaults")
 	if out.Validate() != nil { // must not panic
 		verifReach("getBlock.invalid")
 		return
@@ -105,15 +119,7 @@ func verifC08ParseGetBlock(raw *json.RawMessage) {
 }
 
 func verifC08ParseGetTransaction(raw *json.RawMessage) {
-	verifC08DecodeOutcome(3, func(i int) any {
-		switch i {
-		case 0:
-			return verifC08Value("sig", verifC08B58Strings, []float64{1})
-		case 1:
-			return verifC08Options("opts", verifC08TxOptionKeys)
-		}
-		return verifC08Value("extra", []string{"x"}, []float64{1})
-	})
+	verifC08DecodeOutcome(verifC08SigArg, verifC08TxOptionKeys)
 	out, err := parseGetTransactionRequest(raw)
 	verifAssert(out != nil || err != nil, "C08.parse: parseGetTransactionRequest returned neither a request nor an error (handler dereferences the request)")
 	if err != nil {
@@ -129,12 +135,7 @@ func verifC08ParseGetTransaction(raw *json.RawMessage) {
 }
 
 func verifC08ParseGetBlockTime(raw *json.RawMessage) {
-	verifC08DecodeOutcome(2, func(i int) any {
-		if i == 0 {
-			return verifC08Value("slot", []string{"123", ""}, verifC08Numbers)
-		}
-		return verifC08Value("extra", []string{"x"}, []float64{1})
-	})
+	verifC08DecodeOutcome(verifC08SlotArg, nil)
 	_, err := parseGetBlockTimeRequest(raw)
 	if err != nil {
 		verifReach("getBlockTime.rejected")
@@ -144,15 +145,7 @@ func verifC08ParseGetBlockTime(raw *json.RawMessage) {
 }
 
 func verifC08ParseGsfa(raw *json.RawMessage) {
-	verifC08DecodeOutcome(3, func(i int) any {
-		switch i {
-		case 0:
-			return verifC08Value("address", verifC08B58Strings, []float64{1})
-		case 1:
-			return verifC08Options("opts", verifC08GsfaOptionKeys)
-		}
-		return verifC08Value("extra", []string{"x"}, []float64{1})
-	})
+	verifC08DecodeOutcome(verifC08AddrArg, verifC08GsfaOptionKeys)
 	out, err := parseGetSignaturesForAddressParams(raw)
 	verifAssert(out != nil || err != nil, "C08.parse: parseGetSignaturesForAddressParams returned neither params nor an error (handler dereferences the params)")
 	if err != nil {
